@@ -1046,6 +1046,19 @@ pub fn generate(rng: &mut Rng, np: usize, flags: &Flags, depth: usize) -> Node {
             node = if rng.chance(70) { Node::seq(node, f) } else { Node::par(node, f) };
         }
     }
+    if flags.maps && !sc.maps.is_empty() && rng.chance(60) {
+        // stream maps: canonicalize one (into a canon map or a scalar) and fold over the map / its canon
+        if flags.canon {
+            g.force = Some(14);
+            let c = g.gen(rng, 2, &mut sc);
+            node = Node::seq(node, c);
+        }
+        if flags.folds {
+            g.force = Some(15);
+            let f = g.gen(rng, 3, &mut sc);
+            node = Node::seq(node, f);
+        }
+    }
     if flags.streams && flags.canon && flags.scalar_ap && !sc.streams.is_empty() && rng.chance(45) {
         // canon-derived scalars: the whole canonical stream stored into a scalar, an element selected from it by
         // lens and stored again, both passed on (their tetraplets must keep naming the canon's origin and lens)
